@@ -161,6 +161,17 @@ def _one(args):
                 nev += 1
                 if any(abs(a - b) > 1e-12 for a, b in zip(w, exp)):
                     out.append(({"api": "ErrorRate.signed_weights", "kind": "value"}, f"costs {fp, fn_}: {w.tolist()} vs {exp}", detail0))
+                # an explicit multiplier scales the weights linearly, and the identity holds for the objective moment too
+                for mult in (0.0, 1.0, 2.5):
+                    lam = pd.Series({"all": mult})
+                    wl = np.asarray(er.signed_weights(lam), dtype=float)
+                    if any(abs(a - mult * b) > 1e-12 for a, b in zip(wl, exp)):
+                        out.append(({"api": "ErrorRate.signed_weights", "kind": "linearity", "multiplier": mult}, f"costs {fp, fn_}: signed_weights(lambda={mult}) = {wl.tolist()} != {mult} * {exp}", detail0))
+                    h1 = np.array([rnd.randint(0, 8) / 8 for _ in range(n)]); h2 = np.array([rnd.randint(0, 8) / 8 for _ in range(n)])
+                    lhs = mult * (er.gamma(M.vec_predictor(h1)).iloc[0] - er.gamma(M.vec_predictor(h2)).iloc[0])
+                    rhs = -float(np.dot(wl, h1 - h2)) / n
+                    if abs(lhs - rhs) > 1e-9:
+                        out.append(({"api": "ErrorRate", "kind": "identity", "multiplier": mult}, f"lambda.gamma(h)-lambda.gamma(h') = {lhs} but -(1/n) sum w (h-h') = {rhs}", detail0))
         except Exception as e:
             out.append(({"api": "loss_moment", "kind": "exception"}, f"raised {e!r}", detail0))
     lacking = any(len(mo["index"]) < 2 * case["G"] * S * (2 if mo["kind"] == "EO" else 1) for mo in case["moments"])
